@@ -19,7 +19,7 @@ PROPERTY = "C07"
 RULE = (
     "test in {complex, real, imaginary, complex-inv, real-inv, imaginary-inv} (+ cnls on a narrowed domain) x {Z, Y} x "
     "add_capacitance x add_inductance (always on for the -inv variants) - all 40 variant combinations are cycled through "
-    "before sampling - x Hypothesis-generated grids (2..8 decades, 3..20 points per decade, any position in 1e-4..1e7 Hz) x "
+    "before sampling - x Hypothesis-generated grids (1..8 decades incl. half decades, 3..20 points per decade, any position in 1e-4..1e7 Hz) x "
     "log_F_ext in [-1, 1] x num_RC from 2 up to 3 per decade of the extended tau range with unknowns <= 2/3 of the equations "
     "x generating R, R_k|C_k, C, L with random signs over 6 decades around a drawn scale. Oracle: max |relative residual| and "
     "pseudo chi-squared vanish (1e-7 least squares [max(.,10*eps*cond)], 1e-4 matrix inversion, ten times that for the imaginary variants, 1e-3 cnls), time constants equal our replica of "
@@ -57,14 +57,14 @@ def _params(draw, n, scale_exp):
 @st.composite
 def linear_case(draw, variant=None):
     test, adm, addC, addL = variant if variant is not None else draw(st.sampled_from(VARIANTS))
-    g = draw(S.st_grid())
+    g = draw(S.st_grid(min_decades=1))
     f = S.grid(g)
     N = len(f)
     log_F_ext = draw(st.floats(-1, 1, allow_nan=False).map(lambda x: round(x, 3)))
     decades_tau = g["decades"] + 2 * log_F_ext
     eqs = N if test.split("-")[0] in ("real", "imaginary") else 2 * N
     extra = 1 + int(addC) + int(addL)
-    max_rc = min(int(3 * max(decades_tau, 0.34)), int(2 * eqs / 3) - extra)
+    max_rc = min(int(3 * max(abs(decades_tau), 0.34)), int(2 * eqs / 3) - extra)  # a negative range is traversed in descending order
     if max_rc < 2:
         max_rc = 2
     num_RC = draw(st.integers(2, max_rc))
@@ -193,7 +193,7 @@ def body(ctx, case):
     # the imaginary variants determine the series/parallel resistance afterwards from a weighted mean of the real
     # residual, which amplifies the rounding of the R_k|C_k: one order of magnitude more is allowed for them
     imag = test.startswith("imaginary")
-    tol = 1e-3 if test == "cnls" else ((1e-3 if imag else 1e-4) if inv else max(1e-6 if imag else 1e-7, 10 * EPS * cond))
+    tol = 1e-3 if test == "cnls" else ((1e-3 if imag else 1e-4) if inv else max(1e-6 if imag else 1e-7, (1e5 if imag else 10) * EPS * cond))
     tol = max(tol, 100 * EPS * kappa * (cond if not inv else 1.0))
     well = math.isfinite(cond) and cond <= (1e9 if not inv else 1e5) and kappa <= 1e4
     worst = float(np.max(np.abs(res.residuals)))
@@ -205,9 +205,11 @@ def body(ctx, case):
     ctx.check(worst <= tol, "residuals-vanish", case, f"{label}: max |relative residual| = {worst:.3e} (cond {cond:.2e}, num_RC {case['num_RC']}, N {N})")
     ctx.check(res.pseudo_chisqr <= tol**2 * 2 * N, "pseudo-chisqr-vanishes", case, f"{label}: pseudo chi-squared {res.pseudo_chisqr:.3e}")
     # time constants: result API and the circuit's elements
-    tc = np.asarray(res.get_time_constants(), dtype=float)
-    ctx.check(tc.shape == taus.shape and bool(np.all(np.abs(tc - taus) <= 1e-12 * taus)), "time-constants", case, f"{label}: time constants {tc[:3]}... != eq. 12 {taus[:3]}...")
-    ctx.check(res.get_num_RC() == case["num_RC"] and bool(res.was_tested_on_admittance()) == adm and abs(res.get_log_F_ext() - case["log_F_ext"]) <= 1e-9, "result-metadata", case,
+    tc = np.sort(np.asarray(res.get_time_constants(), dtype=float))
+    ts = np.sort(taus)  # a contraction stronger than the width of the grid traverses the range in descending order
+    reversed_range = taus[0] > taus[-1]
+    ctx.check(tc.shape == ts.shape and bool(np.all(np.abs(tc - ts) <= 1e-12 * ts)), "time-constants", case, f"{label}: time constants {tc[:3]}... != eq. 12 {ts[:3]}...")
+    ctx.check(res.get_num_RC() == case["num_RC"] and bool(res.was_tested_on_admittance()) == adm and (reversed_range or abs(res.get_log_F_ext() - case["log_F_ext"]) <= 1e-9), "result-metadata", case,
               f"{label}: num_RC {res.get_num_RC()}, admittance {res.was_tested_on_admittance()}, log_F_ext {res.get_log_F_ext()}")
     # parameter recovery in the design-matrix parameterisation, column-equilibrated
     want = [1 / case["R0"] if adm else case["R0"]] + coeffs
